@@ -22,7 +22,7 @@ Runs == Batch.runs
 VARIABLES tid, i, M, plen, verdict     \* plen: current trace length of the recorded matcher
 tvars == <<tid, i, M, plen, verdict>>
 
-PIDS == {"C01", "C02", "C03", "C04", "C05", "C06", "C07", "C08", "C09", "DRIFT"}
+PIDS == {"C01", "C02", "C03", "C04", "C05", "C06", "C07", "C08", "C09", "DRIFT", "SKIP"}
 S2(q) == {q[j] : j \in 1..Len(q)}
 
 \* ---- instance and configuration of the current run, converted from JSON
@@ -57,9 +57,19 @@ HistNoWiden == \A j \in 1..(i + 1) : Run.events[j].op # "widen"
 
 NOf(ev) == IF ev.op = "widen" THEN plen ELSE ev.arg
 \* ---- clauses, per property; "" = holds
+\* Fixed-point robustness of the probability cut-off (real matchers only, cf.slack > 0): the optimum must not change
+\* when the threshold moves by the conversion slack; otherwise the instance is a knife-edge and is skipped (counted).
+RobustOpt(I, cf, n) ==
+  cf.slack = 0 \/
+  LET lo == [cf EXCEPT !.minlp = <<cf.minlp[1] - cf.slack, cf.minlp[2]>>]
+      hi == [cf EXCEPT !.minlp = <<cf.minlp[1] + cf.slack, cf.minlp[2]>>]
+      a == OptIdx(I, lo, n)  b == OptIdx(I, hi, n) IN
+  a = b /\ (a = -1 \/ OptScore(I, lo, a) = OptScore(I, hi, a))
+OracleApplies(cf, ev) == cf.oracle /\ Fresh(ev) /\ ~cf.ne /\ cf.W = NoW /\ FirstOrder(cf)
 C01Clause(I, cf, ev) ==
-  IF cf.oracle /\ Fresh(ev) /\ ~cf.ne /\ cf.W = NoW /\ FirstOrder(cf)
+  IF OracleApplies(cf, ev) /\ RobustOpt(I, cf, ev.arg)
      /\ ~Optimal(I, cf, ev.arg, [path |-> ev.path, idx |-> ev.idx]) THEN "not-optimal" ELSE ""
+SkipClause(I, cf, ev) == IF OracleApplies(cf, ev) /\ ~RobustOpt(I, cf, ev.arg) THEN "nonrobust-threshold" ELSE ""
 C02Clause(I, cf, ev) == IF cf.tables /\ ~PathScoresMatchModel(I, cf, ev.path) THEN "path-score" ELSE ""
 C03Clause(I, cf, ev) ==
   IF ev.op = "cwd" THEN "" ELSE      \* continue_with_distance returns nothing; the next re-match is checked
@@ -128,12 +138,13 @@ DriftClause(mr, ev) ==
   ELSE IF mr.M.lat # ev.lat THEN "lattice-differs-from-specification" ELSE ""
 
 Clause(p, I, cf, ev, mr) ==
-  IF ev.exc # "" THEN (IF p = "DRIFT" THEN "" ELSE "operation-raised")
+  IF ev.exc # "" THEN (IF p \in {"DRIFT", "SKIP"} THEN "" ELSE "operation-raised")
   ELSE CASE p = "C01" -> C01Clause(I, cf, ev) [] p = "C02" -> C02Clause(I, cf, ev)
          [] p = "C03" -> C03Clause(I, cf, ev) [] p = "C04" -> C04Clause(I, cf, ev)
          [] p = "C05" -> C05Clause(I, cf, ev) [] p = "C06" -> C06Clause(I, cf, ev)
          [] p = "C07" -> C07Clause(I, cf, ev) [] p = "C08" -> C08Clause(I, cf, ev)
          [] p = "C09" -> C09Clause(I, cf, ev) [] p = "DRIFT" -> DriftClause(mr, ev)
+         [] p = "SKIP" -> SkipClause(I, cf, ev)
 
 Want == S2(Batch.pids)     \* the properties to evaluate in this batch
 
